@@ -45,6 +45,8 @@ class World:
         self.n += 1
         path = os.path.join(self.ctx.tmp, 'src%d%s' % (self.n, ext))
         code = b'-- cart %d\n' % self.n + gen_code.gen_code(rng, lines=rng.choice([1, 3]), final_newline=True)
+        # (a NUL byte in code that a .p8.png stores raw is cut there: open known finding C04:raw-code-with-nul, not this property's subject)
+        code = code.replace(b'\x00', b'\x01')
         label = U.rand_bytes(rng, 0x2000, 'uniform') if (with_label and ext == '.p8') else None
         g = U.make_game(rng=rng, code=code, version=8, label=label)
         self.gfile.to_file(g, path)
@@ -146,7 +148,8 @@ def one_build(ctx, res, w, assign, out_state, out_ext, lines, expect, cases, con
     tags = []
     for s in SECS:
         if got[s] != want[s]:
-            res.fail(key, 'section %s of OUT is not the one the arguments name (%s)' % (s, assign[s]), inp)
+            res.fail(key, 'section %s of OUT is not the one the arguments name (%s)' % (s, assign[s]), inp,
+                     observed=hx(got[s])[:400], expected=hx(want[s])[:400])
             break
     if prev is not None and out_ext == '.p8' and got['label'] != prev['label']:
         res.fail(key, 'the label section of an existing .p8 OUT was not kept', inp)
